@@ -508,9 +508,13 @@ func generate(thorough bool) []scenario {
 			}
 		}
 	}
-	// block B: n = 5, every shape (315), mixed palette, no bump, no deactivation; timing/rank: quick eq/desc (+ inc/asc on the
+	// block B: n = 5, thorough every shape (315), quick a sub-family, mixed palette, no bump, no deactivation; timing/rank: quick eq/desc (+ inc/asc on the
 	// 36 head-based shapes), thorough eq/desc, inc/asc and dec/asc on every shape
-	for _, sh := range shapes(5, 5) {
+	five := shapes(5, 5)
+	if !thorough {
+		five = headShapes(5) // quick: the 36 head-based shapes
+	}
+	for _, sh := range five {
 		combos := []dims{{"eq", "desc", 0, "mixed", 0}}
 		if thorough {
 			combos = append(combos, dims{"inc", "asc", 0, "mixed", 0}, dims{"dec", "asc", 0, "mixed", 0})
